@@ -43,7 +43,7 @@ RecA == Rec("a")
 RecB == Rec("b")
 LetName == "y"
 Y == <<"Name", LetName>>
-NoTree == <<"NoTree">>
+\* NoTree == <<"NoTree">> comes from Predicate
 
 \* ---- (A) the meaning of a formula tree ----------------------------------------------------------
 RECURSIVE DecStr(_)
@@ -187,13 +187,13 @@ Usable(inp, out) ==
   /\ ColOk(out.s4.X, later, LAMBDA row : ExpF(FixTree, row))
   /\ ColOk(out.s4.R, later, LAMBDA row : ExpF(FixTree, row))
 
-Clauses(inp, out) ==
+FClauses(inp, out) ==
   (IF Meaning(inp, out) THEN {} ELSE {"C19.meaning"})
   \cup (IF BundleOk(inp, out) THEN {} ELSE {"C19.ok"})
   \cup (IF Others(inp, out) THEN {} ELSE {"C19.others"})
   \cup (IF Loc(inp, out) THEN {} ELSE {"C19.loc"})
   \cup (IF Usable(inp, out) THEN {} ELSE {"C19.usable"})
-Ok(inp, out) == Clauses(inp, out) = {}
+FOk(inp, out) == FClauses(inp, out) = {}
 
 \* ---- reference outcome (non-vacuity: the relation is satisfiable on every input) -----------------
 \* xs = what X holds per row after step 2 (any values: no oracle for X); accepted = the bundle of step 2
